@@ -1121,3 +1121,56 @@ def pt_snapshot_findings(seed, n=6, max_findings=3):
                 bad('pt-coupled-by-state', 'sampler #%d set from a shared state object does not evolve like a sampler that '
                     'alone holds that state' % (j + 1), c)
     return out, nobj
+
+
+# --------------------------------------------------------------------------
+# C19: reset_after_swap resets exactly the exchanged levels (tall ladders)
+# --------------------------------------------------------------------------
+
+def reset_after_swap_findings(seed, n=4, max_findings=2):
+    from epsie.samplers import ParallelTemperedSampler
+    from epsie.proposals import AdaptiveNormal
+    rng = random.Random(seed)
+    out = []
+    stats = {'sweeps': 0, 'with_gap': 0}
+    calls = []
+    orig = Chain.reset_proposals
+
+    def logged(self_):
+        calls.append(self_)
+        return orig(self_)
+
+    class M:
+        def __call__(self, x, y):
+            return -math.floor(40 * ((x - 0.3) ** 2 + (y + 0.2) ** 2)) / 8.0, (0.0 if abs(x) < 3 and abs(y) < 3 else -numpy.inf)
+    Chain.reset_proposals = logged
+    try:
+        for _ in range(n):
+            nt = rng.choice([5, 6, 8])
+            betas = [float(10.0 ** (-rng.choice([3.0, 4.0, 5.0]) * j / (nt - 1))) for j in range(nt)]
+            with SweepCapture() as cap:
+                smp = ParallelTemperedSampler(['x', 'y'], M(), 2, numpy.array(betas), swap_interval=rng.choice([1, 2]),
+                                              proposals=[AdaptiveNormal(['x', 'y'], {'x': 6., 'y': 6.}, 10 ** 6)],
+                                              reset_after_swap=True, seed=rng.randrange(1 << 20))
+                smp.start_position = {p: numpy.array([[rng.uniform(-2, 2) for _ in smp.chains] for _ in range(nt)])
+                                      for p in ('x', 'y')}
+                for it in range(40):
+                    cap.sweeps = []
+                    del calls[:]
+                    smp.run(1)
+                    for e in cap.sweeps:
+                        idx = e['stored'].get('swap_index', (None, None))[1]
+                        if idx is None:
+                            continue
+                        ch = e['chain']
+                        exchanged = [t for t in range(nt) if int(idx[t]) != t]
+                        was = sorted(t for t, l in enumerate(ch.chains) if any(c is l for c in calls))
+                        stats['sweeps'] += 1
+                        if exchanged and exchanged != list(range(exchanged[0], exchanged[-1] + 1)):
+                            stats['with_gap'] += 1
+                        if was != exchanged and len(out) < max_findings:
+                            out.append(('reset_after_swap_wrong_levels', 'swap_index %s exchanged levels %s but the proposals of levels %s '
+                                        'were reset' % ([int(x) for x in idx], exchanged, was), {'betas': betas}))
+    finally:
+        Chain.reset_proposals = orig
+    return out, stats
